@@ -30,6 +30,7 @@ def run_property(pid, cfg, tier, known):
         return out
     eng.carveouts = {k["obligation"]: k for k in known if k.get("obligation")}
     eng.prop_filter = pid
+    eng.prop_tags = cfg.get("tags", [pid])      # clauses tagged for these properties are obligations of this check
     fn_info = []
     summaries = {}
     for q in cfg["functions"]:
